@@ -5,6 +5,16 @@ HERE = os.path.dirname(os.path.abspath(__file__))
 ROOT = os.path.dirname(HERE)
 
 CHECKS = {
+    "C01": dict(
+        text="Lean theorems: Spec `rate` (closed formula of the statement); models of the Python kinetics functions, make_dxdtf, "
+             "the librdengine marshalling and the Euler engine equal it on non-chemostated entries for all networks / spaces / "
+             "states (grid statements carry named geometry hypotheses); dimension amount/time of every returned quantity; "
+             "marshalling subscripts written = subscripts read. Tie: translator KineticsPy/IndexPy/EngineCpp + correspondence "
+             "(dstate, dxdtf, marshal, euler_step) + exact-rational oracle of the rate law on the real code.",
+        note="Lean kernel + {propext, Classical.choice, Quot.sound}; translator; correspondence harness; float rounding assumed "
+             "within 1e-9 of the magnitude of the added terms (checked on every sampled case, not proved).",
+        technique="Lean 4 proof over hand-written models + translator-generated formulas + differential correspondence",
+        design="§6 C01"),
     "C06": dict(
         text="Lean theorems: generated unit tables (regenerated from units.py on every run) have their SI meaning "
              "(whole-table kernel evaluation); conversion factor = ratio of SI values; identity, composition, inverse, "
